@@ -273,7 +273,9 @@ class Config:
                 try:
                     val = float(val)
                 except ValueError:
-                    pass
+                    # Boolean values are written by `save_config` as `True` and `False`
+                    if val in ('True', 'False'):
+                        val = (val == 'True')
 
         self.__dict__[key] = val
 
